@@ -243,19 +243,32 @@ def undeclared(el, name, route):
 # -- histories ---------------------------------------------------------------------------------------
 
 def history(el, ops):
-    """ops: ['set', qname, value] | ['none', qname] | ['bad', qname] | ['undeclared', name]"""
+    """ops: ['ctor', qname, value] (leading: constructor keywords) | ['set', qname, value] | ['none', qname] |
+    ['bad', qname] | ['undeclared', name] | ['raw', qname, value] | ['copy'] (continue on a deep copy)"""
     s = schema()
     t = s.element_type[el]
     inp = {'layer': 'history', 'element': el, 'ops': ops}
     decl = {a['qname']: a for a in s.attributes_of(t)}
-    r = call(cls_for(el), *ctor_args(el))
+    # the leading ['ctor', q, v] ops are given as constructor keywords
+    kw = {py_name(o[1].split(':')[-1]): o[2] for o in ops if o[0] == 'ctor'}
+    r = call(cls_for(el), *ctor_args(el), **kw)
     if not r.ok:
-        return None
+        return None if not kw else F('declared-valid-attribute-rejected', t, inp, {'step': 'ctor', 'exc': r.etype},
+                                     'accepted', r.site)
     e = r.value
-    model = {}
+    model = {o[1]: o[2] for o in ops if o[0] == 'ctor'}
     for i, op in enumerate(ops):
         before = dict(e.attributes)
-        if op[0] == 'set':
+        if op[0] == 'ctor':
+            continue
+        if op[0] == 'copy':
+            # continue on a deep copy: it carries exactly the attributes that are set now
+            import copy as _copy
+            r = call(_copy.deepcopy, e)
+            if not r.ok:
+                return F('deepcopy-raised', t, inp, {'step': i, 'exc': r.etype}, 'a copy', r.site)
+            e = r.value
+        elif op[0] == 'set':
             r = call(setattr, e, py_name(op[1].split(':')[-1]), op[2])
             if not r.ok:
                 return F('declared-valid-attribute-rejected', t, inp, {'step': i, 'exc': r.etype}, 'accepted', r.site)
@@ -391,9 +404,20 @@ def run_shard(ctx, shard, acc):
         ops = []
         setq = set()
         flags = set()
-        for _ in range(data.draw(st.integers(1, 10 if ctx.quick else 25))):
-            k = data.draw(st.sampled_from(['set', 'set', 'set', 'none', 'bad', 'undeclared', 'raw', 'raw']))
+        for _ in range(data.draw(st.integers(0, 2))):
             a = data.draw(st.sampled_from(attrs))
+            txt = a['fixed'] or data.draw(st.sampled_from(lexical.valid_texts(a['type'])))
+            ok, pv = lexical.python_value_for(a['type'], txt)
+            if ok and a['qname'] not in setq:
+                setq.add(a['qname'])
+                ops.append(['ctor', a['qname'], pv])
+        for _ in range(data.draw(st.integers(1, 10 if ctx.quick else 25))):
+            k = data.draw(st.sampled_from(['set', 'set', 'set', 'none', 'none', 'bad', 'undeclared', 'raw', 'raw', 'copy']))
+            a = data.draw(st.sampled_from(attrs))
+            if k == 'copy':
+                flags.add('copied')
+                ops.append(['copy'])
+                continue
             if k == 'set':
                 txt = a['fixed'] or data.draw(st.sampled_from(lexical.valid_texts(a['type'])))
                 ok, pv = lexical.python_value_for(a['type'], txt)
